@@ -55,4 +55,6 @@ theorem rawdata_dec : Gen.rawdata.dec = decRaw := by
   funext data
   simp only [Gen.rawdata.dec, decRaw, Gen.rawdata.width, copy_fresh data data.length rfl]
 
+theorem complete : Gen.untranslatedWireVar = [] := by decide
+
 end Mq.Tie.WireVar
